@@ -1,0 +1,67 @@
+//go:build verif
+
+package s2
+
+import (
+	"github.com/golang/geo/r1"
+	"github.com/golang/geo/r2"
+)
+
+// This file is compiled only with the build tag "verif". It exports thin
+// read-only wrappers around the unexported pieces of the ShapeIndex
+// construction (property C04 / C06, work package idxbuild). It adds no behaviour.
+
+// VerifIdxCellPadding returns the cellPadding constant as a float64.
+func VerifIdxCellPadding() float64 { return cellPadding }
+
+// VerifIdxInterpolate exposes interpolateFloat64.
+func VerifIdxInterpolate(x, a, b, a1, b1 float64) float64 { return interpolateFloat64(x, a, b, a1, b1) }
+
+// VerifIdxMaxLevelForEdge exposes maxLevelForEdge.
+func VerifIdxMaxLevelForEdge(v0, v1 Point) int { return maxLevelForEdge(Edge{V0: v0, V1: v1}) }
+
+// VerifIdxFaceEdge is the read-only view of one faceEdge appended by addFaceEdge.
+type VerifIdxFaceEdge struct {
+	Face int
+	A, B r2.Point
+}
+
+// VerifIdxAddFaceEdge runs addFaceEdge for one edge and returns the appended
+// face edges in order (face 0 first).
+func VerifIdxAddFaceEdge(v0, v1 Point) []VerifIdxFaceEdge {
+	s := NewShapeIndex()
+	allEdges := make([][]faceEdge, 6)
+	s.addFaceEdge(faceEdge{edge: Edge{V0: v0, V1: v1}}, allEdges)
+	var out []VerifIdxFaceEdge
+	for f := 0; f < 6; f++ {
+		for _, fe := range allEdges[f] {
+			out = append(out, VerifIdxFaceEdge{Face: f, A: fe.a, B: fe.b})
+		}
+	}
+	return out
+}
+
+// VerifIdxClipBound runs clipUBound (axis 0) or clipVBound (axis 1) on a
+// clipped edge with face-edge endpoints a, b and the given bound.
+func VerifIdxClipBound(a, b r2.Point, bound r2.Rect, axis, end int, val float64) r2.Rect {
+	s := NewShapeIndex()
+	ce := &clippedEdge{faceEdge: &faceEdge{a: a, b: b}, bound: bound}
+	if axis == 0 {
+		return s.clipUBound(ce, end, val).bound
+	}
+	return s.clipVBound(ce, end, val).bound
+}
+
+// VerifIdxClipVAxis runs clipVAxis; a nil result is reported by ok = false.
+func VerifIdxClipVAxis(a, b r2.Point, bound r2.Rect, middle r1.Interval) (lo r2.Rect, loOK bool, hi r2.Rect, hiOK bool) {
+	s := NewShapeIndex()
+	ce := &clippedEdge{faceEdge: &faceEdge{a: a, b: b}, bound: bound}
+	x, y := s.clipVAxis(ce, middle)
+	if x != nil {
+		lo, loOK = x.bound, true
+	}
+	if y != nil {
+		hi, hiOK = y.bound, true
+	}
+	return
+}
